@@ -43,6 +43,11 @@ template <class A, class N> void scal(A& a, const N& n) {
 template <class N, class A> void nmul(const N& n, const A& a) {
   if constexpr (can_mul<N, A>::value) (void)(n * a);
 }
+template <class T, class = void> struct has_dims : std::false_type {};
+template <class T> struct has_dims<T, std::void_t<decltype(T::Dimensions())>> : std::true_type {};
+template <class A> void dims(const A&) {
+  if constexpr (has_dims<A>::value) (void)A::Dimensions();
+}
 template <class D, class S> void conv(D& d, const S& s) {
   if constexpr (std::is_constructible_v<D, const S&>) { D c(s); (void)c; }
   if constexpr (std::is_assignable_v<D&, const S&>) d = s;
@@ -185,7 +190,7 @@ def quantities_tu(types=('double',), other_types=('float',), classes=None, hash_
         for c in names:
             if c in ('ConstitutiveModel',):
                 continue
-            s += 'void use_%d(%s<%s>& a, %s<%s>& b, %s n) { cmps(a, b); scal(a, n); nmul(n, a); }\n' % (
+            s += 'void use_%d(%s<%s>& a, %s<%s>& b, %s n) { cmps(a, b); scal(a, n); nmul(n, a); dims(a); }\n' % (
                 n, c, t, c, t, t)
             n += 1
             if conv:
